@@ -2,8 +2,15 @@ package h
 
 import (
 	"archive/zip"
+	"bytes"
+	"compress/flate"
+	"fmt"
+	"hash/crc32"
 	"io"
+	"strings"
 	"time"
+
+	"github.com/sassoftware/relic/v8/zz_verif/core"
 )
 
 type zipBuilder struct{ w *zip.Writer }
@@ -19,3 +26,81 @@ func (z *zipBuilder) add(name string, data []byte) {
 }
 
 func (z *zipBuilder) close() { must(z.w.Close()) }
+
+// appxWithExtraMembers copies an .appx (a zip) member by member, compressed
+// bytes untouched, and adds members whose deflate streams end the way real
+// packaging tools end them: a sync flush after every 64 KiB block and a final
+// empty block, i.e. compressed bytes that follow the last uncompressed byte -
+// also for a member whose uncompressed size is zero or a multiple of the block
+// size.  The signer regenerates the block map and content types, so the result
+// is a well-formed input.
+func appxWithExtraMembers(base []byte, t *core.Tape) ([]byte, error) {
+	zr, err := zip.NewReader(bytes.NewReader(base), int64(len(base)))
+	if err != nil {
+		return nil, err
+	}
+	var buf bytes.Buffer
+	zw := zip.NewWriter(&buf)
+	extrasDone := false
+	for _, f := range zr.File {
+		// the payload comes first; manifest, block map, content types, code
+		// integrity catalogue and signature form the package's trailer, which
+		// the signer rewrites: the extra members go in front of it
+		if !extrasDone && (f.Name == "AppxManifest.xml" || f.Name == "AppxMetadata/AppxBundleManifest.xml" || f.Name == "AppxBlockMap.xml" || f.Name == "[Content_Types].xml" || strings.HasPrefix(f.Name, "AppxMetadata/") || f.Name == "AppxSignature.p7x") {
+			extrasDone = true
+			if err := appxExtras(zw, t); err != nil {
+				return nil, err
+			}
+		}
+		fh := f.FileHeader
+		w, err := zw.CreateRaw(&fh)
+		if err != nil {
+			return nil, err
+		}
+		rc, err := f.OpenRaw()
+		if err != nil {
+			return nil, err
+		}
+		if _, err := io.Copy(w, rc); err != nil {
+			return nil, err
+		}
+	}
+	if !extrasDone {
+		if err := appxExtras(zw, t); err != nil {
+			return nil, err
+		}
+	}
+	if err := zw.Close(); err != nil {
+		return nil, err
+	}
+	return buf.Bytes(), nil
+}
+
+func appxExtras(zw *zip.Writer, t *core.Tape) error {
+	n := 1 + t.Choose(2, "appx-extra-members")
+	for i := 0; i < n; i++ {
+		size := core.Pick(t, "appx-extra-size", 0, 1, 32768, 65536, 65537, 131072, 4096)
+		data := t.Bytes(size, "appx-extra-data")
+		if t.Chance(1, 2, "appx-extra-compressible") {
+			for j := range data {
+				data[j] = byte('a' + j%7)
+			}
+		}
+		var comp bytes.Buffer
+		fw, _ := flate.NewWriter(&comp, flate.BestSpeed)
+		for off := 0; off < len(data); off += 65536 {
+			end := min(off+65536, len(data))
+			fw.Write(data[off:end])
+			fw.Flush() // sync marker: an empty stored block after each 64 KiB
+		}
+		fw.Close() // final (empty) block
+		fh := &zip.FileHeader{Name: fmt.Sprintf("Assets/verif-extra-%d.dat", i), Method: zip.Deflate,
+			CRC32: crc32.ChecksumIEEE(data), CompressedSize64: uint64(comp.Len()), UncompressedSize64: uint64(len(data))}
+		w, err := zw.CreateRaw(fh)
+		if err != nil {
+			return err
+		}
+		w.Write(comp.Bytes())
+	}
+	return nil
+}
